@@ -334,3 +334,27 @@ def pmap_ordered(fn, chunks, check=None, nproc=16, prebuild=("plain",)):
                 check.cov["exhaustive"] = False
                 pool.terminate()
                 return
+
+
+def blobs_dir():
+    """files extracted from /repo/tests/blob.h (PE32_FILE.bin, ELF32_FILE.bin, ...)"""
+    d = os.path.join(yvbuild.BUILD, "blobs")
+    src = os.path.join(yvbuild.REPO, "tests", "blob.h")
+    stamp = os.path.join(d, ".stamp")
+    key = hashlib.sha256(open(src, "rb").read()).hexdigest()
+    if os.path.exists(stamp) and open(stamp).read() == key:
+        return d
+    os.makedirs(d, exist_ok=True)
+    exe = os.path.join(d, "blobs_dump")
+    subprocess.check_call(["gcc", "-w", "-I" + os.path.join(yvbuild.REPO, "tests"), os.path.join(H, "blobs.c"), "-o", exe])
+    subprocess.check_call([exe, d])
+    open(stamp, "w").write(key)
+    return d
+
+
+def blob(name):
+    return open(os.path.join(blobs_dir(), name + ".bin"), "rb").read()
+
+
+def repo_file(rel):
+    return open(os.path.join(yvbuild.REPO, rel), "rb").read()
